@@ -1063,6 +1063,10 @@ where
     /// ## Errors
     /// If the report contents are invalid.
     pub fn from_bytes(mut bytes: Bytes) -> Result<Self, InvalidHybridReportError> {
+        if bytes.is_empty() {
+            // a zero-length record (e.g. from the length-delimited input stream) has no event type
+            return Err(InvalidHybridReportError::Length(0, 1));
+        }
         match HybridEventType::try_from(bytes[0])? {
             HybridEventType::Impression => {
                 bytes.advance(1);
